@@ -31,7 +31,7 @@ pub fn gen_cell(rng: &mut Rng, cell: u64, ip: Ipv4Addr) -> CellCfg {
     };
     let sticky_custom = rng.chance(1, 2);
     let sticky_name = if sticky_custom {
-        (*rng.pick(&["SID", "my.sticky-cookie", "sozubalanceid", "LB_ID"])).to_owned()
+        (*rng.pick(&["SID", "my.sticky-cookie", "sozubalanceid", "LB_ID", "ServerId", "SERVERID", "Sticky_lb.Id"])).to_owned()
     } else {
         "SOZUBALANCEID".to_owned()
     };
@@ -133,6 +133,23 @@ pub fn gen_value(rng: &mut Rng, long_left: &mut usize, tags: &mut Vec<&'static s
     }
 }
 
+/// the sticky cookie name with some letters in the other case (never the name itself)
+fn sticky_case_variant(rng: &mut Rng, name: &str) -> String {
+    let flip = |c: char| if c.is_ascii_uppercase() { c.to_ascii_lowercase() } else { c.to_ascii_uppercase() };
+    let v: String = match rng.below(4) {
+        0 => name.to_ascii_lowercase(),
+        1 => name.to_ascii_uppercase(),
+        2 => name.chars().map(|c| if rng.bool() { flip(c) } else { c }).collect(),
+        _ => name.chars().map(flip).collect(),
+    };
+    if v != name {
+        return v;
+    }
+    // flip the first letter
+    let i = name.find(|c: char| c.is_ascii_alphabetic()).unwrap_or(0);
+    name.chars().enumerate().map(|(k, c)| if k == i { flip(c) } else { c }).collect()
+}
+
 fn cookie_value(rng: &mut Rng) -> String {
     match rng.below(8) {
         0 => String::new(),
@@ -224,19 +241,42 @@ pub fn gen_request(rng: &mut Rng, cfg: &CellCfg, index: u64, front: Front) -> Re
     if rng.chance(1, 2) {
         tags.push("cookie");
         let n = rng.urange(1, 8);
-        let mut pairs: Vec<String> = (0..n)
-            .map(|i| {
-                let name = match rng.below(12) {
-                    0 => cfg.sticky_name.to_ascii_lowercase() + "x",
-                    1 => format!("{}X", cfg.sticky_name),
-                    2 => format!("x{}", cfg.sticky_name),
-                    _ => format!("ck{}{}", i, rng.below(100)),
+        let mut pairs: Vec<String> = (0..n).map(|i| format!("ck{}{}={}", i, rng.below(100), cookie_value(rng))).collect();
+        // cookies that are NOT sozu's: names differing from the sticky name by letter case only
+        // (cookie names are case-sensitive, RFC 6265), and prefix / suffix look-alikes
+        if rng.chance(2, 5) {
+            tags.push("cookie:sticky-case-variant");
+            for _ in 0..rng.urange(1, 2) {
+                let name = sticky_case_variant(rng, &cfg.sticky_name);
+                let val = match rng.below(4) {
+                    0 => sticky_id(cdef),
+                    1 => String::new(),
+                    _ => cookie_value(rng),
                 };
-                format!("{}={}", name, cookie_value(rng))
-            })
-            .collect();
+                let at = rng.usize_below(pairs.len() + 1);
+                pairs.insert(at, format!("{name}={val}"));
+            }
+        }
+        if rng.chance(3, 10) {
+            tags.push("cookie:sticky-lookalike");
+            for _ in 0..rng.urange(1, 2) {
+                let name = match rng.below(5) {
+                    0 => format!("{}X", cfg.sticky_name),
+                    1 => format!("X{}", cfg.sticky_name),
+                    2 => format!("{}{}", cfg.sticky_name, cfg.sticky_name),
+                    3 => cfg.sticky_name[..cfg.sticky_name.len() - 1].to_owned(),
+                    _ => format!("{}x", cfg.sticky_name.to_ascii_lowercase()),
+                };
+                let at = rng.usize_below(pairs.len() + 1);
+                pairs.insert(at, format!("{}={}", name, cookie_value(rng)));
+            }
+        }
         if rng.chance(1, 2) {
-            let val = if rng.bool() { sticky_id(cdef) } else { "bogus".to_owned() };
+            let val = match rng.below(5) {
+                0 | 1 => sticky_id(cdef),
+                2 => String::new(),
+                _ => "bogus".to_owned(),
+            };
             let sticky = format!("{}={}", cfg.sticky_name, val);
             let pos = match rng.below(3) {
                 0 => {
@@ -263,7 +303,15 @@ pub fn gen_request(rng: &mut Rng, cfg: &CellCfg, index: u64, front: Front) -> Re
             pairs.insert(rng.usize_below(pairs.len() + 1), "flagonly".to_owned());
         }
         // distribute over 1..3 Cookie fields
-        let n_fields = if pairs.len() > 1 && rng.chance(1, 3) { rng.urange(2, 3.min(pairs.len())) } else { 1 };
+        let n_fields = if lower && pairs.len() > 1 && rng.chance(2, 5) {
+            // HTTP/2 cookie crumbs: one field per pair
+            tags.push("cookie:crumbs");
+            pairs.len()
+        } else if pairs.len() > 1 && rng.chance(1, 3) {
+            rng.urange(2, 3.min(pairs.len()))
+        } else {
+            1
+        };
         if n_fields > 1 {
             tags.push("cookie:fields>1");
         }
